@@ -12,6 +12,7 @@
 import CharsetProof.Model.Cd
 import CharsetProof.Lemmas.SortPerm
 import CharsetProof.Lemmas.SortSorted
+import CharsetProof.Lemmas.SortSmall
 set_option linter.unusedSectionVars false
 namespace Charset
 variable {L : Type} [DecidableEq L]
@@ -161,7 +162,7 @@ theorem C19_listed_iff_partial (thr : F32) (hthr : ThrOk thr) (n : Nat) (score :
     l ∈ (coherenceRatioModel thr n score cands).map (·.1) ↔
       ∃ i, i < n ∧ l ∈ cands i ∧ Fl.lt (score i l) thr = false := by
   unfold coherenceRatioModel sortDesc
-  have hperm := insertionSort_perm (fun (a b : L × F32) => Fl.ocmp b.2 a.2 == .lt)
+  have hperm := sortUnstableSmall_perm (fun (a b : L × F32) => Fl.ocmp b.2 a.2 == .lt)
     (filterAlt (cohLayers thr score cands (List.range n) 0))
   rw [(hperm.map (·.1)).mem_iff, filterAlt_langs, C19_cutoff_partial thr hthr _ _ _ hcalm]
   simp only [List.mem_map, List.mem_filter, allPairs, List.mem_flatMap, List.mem_range, Bool.not_eq_eq_eq_not,
@@ -193,7 +194,7 @@ theorem C19_sorted (l : List (L × F32)) :
       (fun a b => decide ((fun p : L × F32 => -p.2.key) a < (fun p : L × F32 => -p.2.key) b)) := by
     funext a b; exact sortDesc_lt_eq a b
   rw [hfun]
-  have := insertionSort_pairwise (fun p : L × F32 => -p.2.key) l
+  have := sortUnstableSmall_pairwise (fun p : L × F32 => -p.2.key) l
   exact this.imp (fun h => by omega)
 
 theorem C19_sorted_model (thr : F32) (n : Nat) (score : Nat → L → F32) (cands : Nat → List L) :
